@@ -372,9 +372,9 @@ func buildMessagePools(p *pools, blocks []corpus.Block) {
 		tx = s[0].b
 	}
 	dmq := pcommon.DmqMessage{
-		MessageID: h32,
-		Payload:   pcommon.DmqMessagePayload{MessageBody: []byte("hello"), KESPeriod: 3, ExpiresAt: 1700000000},
-		KESSignature: bytes.Repeat([]byte{0x33}, 448),
+		MessageID:              h32,
+		Payload:                pcommon.DmqMessagePayload{MessageBody: []byte("hello"), KESPeriod: 3, ExpiresAt: 1700000000},
+		KESSignature:           bytes.Repeat([]byte{0x33}, 448),
 		OperationalCertificate: pcommon.OperationalCertificate{KESVerificationKey: h32, IssueNumber: 1, KESPeriod: 3, ColdSignature: bytes.Repeat([]byte{0x22}, 64)},
 		ColdVerificationKey:    h32,
 	}
